@@ -1,0 +1,10 @@
+//go:build verif
+
+// Contract for protocol/runtime versions (comment-only).
+package version
+
+//@ func Version.ToU64
+//@   trusted
+//@   pure
+//@   ensures int(result) == int(v.Major) * 4294967296 + int(v.Minor) * 65536 + int(v.Patch)
+//@   note (uint64(Major) << 32) | (uint64(Minor) << 16) | uint64(Patch) with 16-bit fields: the three fields occupy disjoint bit ranges, so the value is this sum (bit operations are uninterpreted in the engine, hence trusted); it is injective in the three fields
